@@ -446,6 +446,17 @@ func (e *SpecEnv) evalCall(x *ast.CallExpr) Val {
 			return realV(sx("foldD", fn, arg(1).T, arg(2).T, toReal(arg(3))))
 		}
 		return realV(sx("foldK", fn, arg(1).T, arg(2).T, toReal(arg(3)), arg(4).T))
+	case "dataMM":
+		// dataMM(a, b, i, j, k): sum over q < k of a[i][q] * b[q][j] for two matrices of float64 leaves
+		e.run.needData()
+		bf := e.run.boxFn("Real", "Data")
+		w.ensureSl("Data")
+		bs := e.run.boxFn("Sl_Data", "Data")
+		ch := func(d, i string) string { return fmt.Sprintf("(select (arrSl_Data (un%s %s)) %s)", bs, d, i) }
+		e.run.needNamed("dataMM", fmt.Sprintf(`(declare-fun dataMM (Data Data Int Int Int) Real)
+(assert (forall ((a Data) (b Data) (i Int) (j Int) (k Int)) (! (= (dataMM a b i j k) (ite (<= k 0) 0.0 (+ (dataMM a b i j (- k 1)) (* (un%s %s) (un%s %s))))) :pattern ((dataMM a b i j k)))))`,
+			bf, ch(ch("a", "i"), "(- k 1)"), bf, ch(ch("b", "(- k 1)"), "j")))
+		return realV(sx("dataMM", arg(0).T, arg(1).T, arg(2).T, arg(3).T, arg(4).T))
 	case "dataDot":
 		// dataDot(a, b, k): sum over i < k of the products of the i-th float64 children of the rows a and b
 		e.run.needData()
